@@ -5,7 +5,6 @@
 package nbhttp
 
 import (
-	"strings"
 	"bufio"
 	"errors"
 	"io"
@@ -13,6 +12,7 @@ import (
 	"net/http"
 	"os"
 	"strconv"
+	"strings"
 	"time"
 	"unsafe"
 
